@@ -234,6 +234,25 @@ class Body:
             for s in b["stmts"]:
                 yield i, s
 
+    def rpo(self):
+        """reverse post-order rank of the blocks reachable from the entry (execution order for loop-free code)"""
+        seen, post = set(), []
+        stack = [(0, iter(self.succs(0)))]
+        seen.add(0)
+        while stack:
+            b, it = stack[-1]
+            adv = False
+            for s in it:
+                if s is not None and s not in seen and not self.blocks[s]["cleanup"]:
+                    seen.add(s)
+                    stack.append((s, iter(self.succs(s))))
+                    adv = True
+                    break
+            if not adv:
+                post.append(b)
+                stack.pop()
+        return {b: i for i, b in enumerate(reversed(post))}
+
     def dominators(self):
         """Immediate-dominator-free simple dominator sets (blocks are few hundred)."""
         n = len(self.blocks)
